@@ -40,7 +40,8 @@ def run_lp_check(pid, tier, seed, runs, owns=(), level='model_checking', rule=''
                 return True
             res = engine.tlc_replay(rep, pool, r.get('module', 'MC_Solver'), r.get('worker', worker), consts=r['consts'],
                                     invariants=r['invariants'], label=r['label'], on_result=on_result,
-                                    export_filter=flt, timeout=r.get('timeout', 3000), **kw)
+                                    export_filter=flt, timeout=r.get('timeout', 3000),
+                                    constraint=r.get('constraint'), **kw)
             rep.notes.append('%s: %s, %d behaviours exported, %d states, %.0fs' % (
                 r['label'], 'simulate' if sim else 'exhaustive BFS', res['exports'], res['distinct'], res['wall_s']))
         if post:
